@@ -95,7 +95,7 @@ def run(ctx):
         return
     for i, o in zip(small, out):
         model[i] = o
-    bigm = [i for i in big if wg.model_cheap(cases[i]["op"][:2], cases[i]["ty"] if cases[i]["op"] == "RT" else None, cases[i]["bo"], len(cases[i]["toks"]))]
+    bigm = [i for i in big if wg.model_cheap(cases[i]["op"][:2], cases[i]["bo"], cases[i]["toks"])]
     ok, out, err = wg.run_each(drv, [lines[i] for i in bigm], chunk=2)
     if not ok:
         ctx.tie_broken("extracted model crashed (big stream)", err)
